@@ -363,7 +363,17 @@ func cmdCheck(args []string) int {
 	var mu, retryMu sync.Mutex
 	retries := 0
 	solverSecs := map[string]float64{}
+	// development aid: VERIF_ONLY=<regexp> solves only the obligations whose name matches; the others stay undecided
+	// (and are therefore reported as violations: a filtered run can never look green)
+	var onlyRe *regexp.Regexp
+	if v := os.Getenv("VERIF_ONLY"); v != "" {
+		onlyRe, _ = regexp.Compile(v)
+	}
 	for idx, j := range all {
+		if onlyRe != nil && !onlyRe.MatchString(j.o.Name) {
+			j.o.Result = "skipped"
+			continue
+		}
 		wg.Add(1)
 		go func(idx int, j *job) {
 			defer wg.Done()
